@@ -9,6 +9,10 @@ ALL byte strings `raw : List Nat`, all group tables and all BeginStrings.
 -/
 import AsyncFix.Model.Codec.Reader
 import AsyncFix.Lemmas.CodecDecodeShape
+import AsyncFix.Lemmas.CodecDecodeCorrupt
+import AsyncFix.Lemmas.CodecDecodeWait
+import AsyncFix.Lemmas.CodecDecodeEval
+import AsyncFix.Model.Codec.Frame
 namespace AsyncFix.Props.C10
 open AsyncFix.Model.Codec
 
@@ -86,5 +90,166 @@ theorem feed_buffer_suffix (bs : Bytes) (tbl : Tbl) (buf chunk : Bytes) :
 theorem feed_never_stalls (bs : Bytes) (tbl : Tbl) (buf chunk : Bytes) :
     (feed bs tbl buf chunk).stalled = false ∧ (feed bs tbl buf chunk).raised = none :=
   readLoop_never_stalls bs tbl (buf ++ chunk) []
+
+/-! ## 4. a returned message has a CheckSum field that matches its bytes -/
+
+/-- Every returned frame `enc` is `pre ++ SOH "10=" v` optionally followed by one SOH, `v` has no
+SOH, and Python's `int(v)` equals the byte sum of `pre ++ SOH` (everything in front of `10=`)
+modulo 256.  `pre` is exactly the model's `SOH.join(msg[:-1])`. -/
+theorem checksum_sound (bs : Bytes) (tbl : Tbl) (raw : Bytes) (m : Msg) (n : Nat) (enc : Bytes)
+    (h : decode bs tbl raw = .msg m n enc) :
+    ∃ pre v tail, enc = pre ++ SOH :: (tag10 ++ EQS :: v) ++ tail ∧ (tail = [] ∨ tail = [SOH]) ∧
+      SOH ∉ v ∧ pyInt v = some ((sum (pre ++ [SOH]) % 256 : Nat) : Int) ∧
+      pre = join SOH (fieldsOf enc).dropLast := by
+  obtain ⟨pre, v, tail, h1, h2, h3, h4, h5⟩ := decode_checksum' h
+  refine ⟨pre, v, tail, h1, h2, h3, ?_, h5⟩
+  rw [h4, sum_append, sum_cons, sum_nil]; rfl
+
+/-- the returned bytes are a contiguous piece of the buffer -/
+theorem decode_raw_infix (bs : Bytes) (tbl : Tbl) (raw : Bytes) (m : Msg) (n : Nat) (enc : Bytes)
+    (h : decode bs tbl raw = .msg m n enc) : enc <:+: raw := by
+  rw [decode_eq] at h
+  cases hvi : findSub marker raw with
+  | none => rw [hvi] at h; cases h
+  | some vi =>
+    rw [hvi] at h
+    obtain ⟨_, _, _, _, _, _, _, _, _, _, _, _, _, _, _, _, _, _, he⟩ := decodeFields_msg h
+    rw [he]
+    exact List.IsInfix.trans (List.take_prefix _ _).isInfix (List.drop_suffix _ _).isInfix
+
+/-- **Same-shape corruption is rejected.**  Take a frame that the decoder returns,
+`(a ++ x :: b) ++ SOH "10=" v ++ tail`, and replace the byte `x` anywhere in the summed region
+by a different byte `y` (both < 256), leaving the CheckSum field untouched.  The modified
+byte string is never returned as a message – by any buffer, table or BeginString. -/
+theorem same_shape_corruption_rejected (bs : Bytes) (tbl : Tbl) (raw : Bytes) (m : Msg) (n : Nat)
+    (a b v tail : Bytes) (x y : Nat)
+    (h : decode bs tbl raw = .msg m n ((a ++ x :: b) ++ SOH :: (tag10 ++ EQS :: v) ++ tail))
+    (hv : SOH ∉ v) (ht : tail = [] ∨ tail = [SOH]) (hx : x < 256) (hy : y < 256) (hxy : x ≠ y) :
+    ∀ bs' tbl' raw' m' n',
+      decode bs' tbl' raw' ≠ .msg m' n' ((a ++ y :: b) ++ SOH :: (tag10 ++ EQS :: v) ++ tail) := by
+  intro bs' tbl' raw' m' n' h'
+  obtain ⟨p1, v1, t1, e1, ht1, hv1, hp1, _⟩ := decode_checksum' h
+  obtain ⟨p2, v2, t2, e2, ht2, hv2, hp2, _⟩ := decode_checksum' h'
+  obtain ⟨hpa, hva, _⟩ := ck_decomp_unique (v1 := v) (v2 := v1) e1 hv hv1 ht ht1
+  obtain ⟨hpb, hvb, _⟩ := ck_decomp_unique (v1 := v) (v2 := v2) e2 hv hv2 ht ht2
+  rw [← hva, ← hpa] at hp1
+  rw [← hvb, ← hpb, hp1] at hp2
+  have := sum_subst_ne (a := a) (b := b) hx hy hxy
+  simp only [Option.some.injEq, Int.natCast_inj] at hp2
+  exact this hp2
+
+/-- … and when the substitution keeps the field structure (the piece still starts with the marker
+and gets no earlier `SOH "10="`), the buffer that starts with the corrupted frame yields NO message
+at all, whatever follows it. -/
+theorem same_shape_corruption_not_decoded (bs : Bytes) (tbl : Tbl) (raw : Bytes) (m : Msg) (n : Nat)
+    (a b v : Bytes) (x y : Nat)
+    (h : decode bs tbl raw = .msg m n ((a ++ x :: b) ++ SOH :: (tag10 ++ EQS :: v) ++ [SOH]))
+    (hv : SOH ∉ v) (hx : x < 256) (hy : y < 256) (hxy : x ≠ y)
+    (hmark : isPrefix marker (a ++ y :: b) = true)
+    (hshape : findSub cksumPat ((a ++ y :: b) ++ cksumPat) = some (a ++ y :: b).length) :
+    ∀ rest m' n' e', decode bs tbl ((a ++ y :: b) ++ cksumPat ++ v ++ SOH :: rest) ≠ .msg m' n' e' := by
+  intro rest m' n' e'
+  apply mismatching_frame_rejected bs tbl hmark hshape hv
+  obtain ⟨p1, v1, t1, e1, ht1, hv1, hp1, _⟩ := decode_checksum' h
+  obtain ⟨hpa, hva, _⟩ := ck_decomp_unique (v1 := v) (v2 := v1) e1 hv hv1 (Or.inr rfl) ht1
+  rw [← hva, ← hpa] at hp1
+  rw [hp1]
+  intro hp2
+  have := sum_subst_ne (a := a) (b := b) hx hy hxy
+  simp only [Option.some.injEq, Int.natCast_inj] at hp2
+  exact this hp2
+
+/-! ## 5. a wait is only ever for bytes that have not arrived -/
+
+/-- **Characterisation of "consume nothing".**  `decode` returns `(None, 0, None)` only if
+ (a) the buffer is a proper prefix of the marker `8=FIX.` (possibly empty), or
+ (b) it starts with the marker, no complete CheckSum field has arrived yet and the piece has
+     fewer than three fields, or
+ (c) it starts with the marker, has at least three fields and declares (BodyLength) more bytes
+     than are buffered. -/
+theorem no_permanent_stall (bs : Bytes) (tbl : Tbl) (raw : Bytes) (h : decode bs tbl raw = .none 0) :
+    (findSub marker raw = none ∧ raw.length ≤ 5 ∧ raw = marker.take raw.length) ∨
+    (isPrefix marker raw = true ∧ closedAtOf raw = none ∧
+      (fieldsOf (raw.take (cutOf raw))).length < 3) ∨
+    (isPrefix marker raw = true ∧ 3 ≤ (fieldsOf (raw.take (cutOf raw))).length ∧
+      raw.length < declaredOf (fieldsOf (raw.take (cutOf raw)))) :=
+  decode_none_zero h
+
+/-- Once a complete CheckSum field (`SOH "10=" … SOH`) has arrived at or after the first marker –
+e.g. because a later frame followed the malformed one – the decoder stops waiting at the latest
+when the length declared by the head is buffered, for EVERY continuation `ext` of the stream. -/
+theorem closed_frame_wait_bounded (bs : Bytes) (tbl : Tbl) (raw : Bytes) (vi c : Nat)
+    (hvi : findSub marker raw = some vi) (hc : closedAtOf (raw.drop vi) = some c) (ext : Bytes)
+    (hN : vi + declaredOf (fieldsOf ((raw.drop vi).take c)) ≤ (raw ++ ext).length) :
+    decode bs tbl (raw ++ ext) ≠ .none 0 :=
+  closed_wait_bounded bs tbl hvi hc ext hN
+
+/-- **One malformed frame cannot block the frames that follow it**: whatever bytes `p` are in
+the buffer, as soon as something frame-like (`8=FIX.` … `SOH 10=` … `SOH`) has followed them there
+is a bound `N` such that every continuation of the stream that brings the buffer to `N` bytes makes
+`decode` consume something (> 0 bytes or a message); together with `readLoop_never_stalls` the reader
+then proceeds with a strictly shorter buffer. -/
+theorem following_frame_unblocks (bs : Bytes) (tbl : Tbl) (p q v r : Bytes) :
+    ∃ N, ∀ ext, N ≤ ((p ++ marker ++ q ++ cksumPat ++ v ++ SOH :: r) ++ ext).length →
+      decode bs tbl ((p ++ marker ++ q ++ cksumPat ++ v ++ SOH :: r) ++ ext) ≠ .none 0 := by
+  obtain ⟨vi, c, hvi, hc⟩ := closed_of_contains (p := p) (q := q) (v := v) (r := r)
+  exact ⟨_, fun ext hN => closed_wait_bounded bs tbl hvi hc ext hN⟩
+
+/-! ## 6. the full statement of the property (violated by the unchanged code, see Findings/C10) -/
+
+/-- BodyLength(9) equals the number of bytes after the BodyLength field's SOH up to and including
+the SOH in front of `10=` -/
+def BodyLengthOK (enc : Bytes) : Prop :=
+  ∃ f0 f1 rest v1, fieldsOf enc = f0 :: f1 :: rest ∧ splitEq f1 = some (tag9, v1) ∧
+    pyInt v1 = some (((join SOH (fieldsOf enc).dropLast).length + 1 - (f0.length + f1.length + 2) : Nat) : Int)
+
+/-- one-byte edits of a byte string -/
+inductive Edit1 : Bytes → Bytes → Prop
+  | subst (a b : Bytes) (x y : Nat) : x ≠ y → y < 256 → Edit1 (a ++ x :: b) (a ++ y :: b)
+  | delete (a b : Bytes) (x : Nat) : Edit1 (a ++ x :: b) (a ++ b)
+  | insert (a b : Bytes) (y : Nat) : y < 256 → Edit1 (a ++ b) (a ++ y :: b)
+
+/-- "A message is returned only when the frame's CheckSum AND BodyLength are consistent with its
+bytes" -/
+def C10_bodylength_full : Prop :=
+  ∀ bs tbl raw m n enc, decode bs tbl raw = .msg m n enc → BodyLengthOK enc
+
+/-- "no single-byte corruption of a valid frame is ever returned as a message" -/
+def C10_corruption_full : Prop :=
+  ∀ bs tbl f f', okBegin bs = true → WFFrame bs f → Edit1 f f' →
+    ∀ rest m n e, decode bs tbl (f' ++ rest) ≠ .msg m n e
+
+/-- the complete second sentence of C10 -/
+def C10_full : Prop := C10_bodylength_full ∧ C10_corruption_full
+
+/-! ## non-vacuity: concrete instances of the hypotheses -/
+
+/-- `8=FIX.4.4|9=10|35=0|49=S|10=205|` (built by the reference framer `mkFrame`) -/
+def sampleFrame : Bytes := mkFrame bs44 [⟨[51, 53], [48]⟩, ⟨[52, 57], [83]⟩]
+
+/-- the sample frame is returned (hypothesis of `checksum_sound` / `decode_msg_progress`) … -/
+example : ∃ m, decode bs44 [] (sampleFrame ++ [56, 61]) = .msg m 32 sampleFrame :=
+  DecRes.of_msgOf (by decide +kernel)
+
+/-- … and has the shape required by `same_shape_corruption_rejected` / `…_not_decoded`
+(x = '0' of `35=0` replaced by y = '1') -/
+example : sampleFrame =
+    (([56, 61, 70, 73, 88, 46, 52, 46, 52, 1, 57, 61, 49, 48, 1, 51, 53, 61] ++ 48 :: [1, 52, 57, 61, 83])
+      ++ SOH :: (tag10 ++ EQS :: [50, 48, 53]) ++ [SOH]) ∧
+    isPrefix marker ([56, 61, 70, 73, 88, 46, 52, 46, 52, 1, 57, 61, 49, 48, 1, 51, 53, 61] ++ 49 :: [1, 52, 57, 61, 83]) = true ∧
+    findSub cksumPat (([56, 61, 70, 73, 88, 46, 52, 46, 52, 1, 57, 61, 49, 48, 1, 51, 53, 61] ++ 49 :: [1, 52, 57, 61, 83]) ++ cksumPat)
+      = some 24 := by decide +kernel
+
+/-- the three kinds of wait of `no_permanent_stall` all occur:
+`8=FI`, `8=FIX.4.4|9=`, `8=FIX.4.4|9=100|35=0|` -/
+example : decode bs44 [] [56, 61, 70, 73] = .none 0 ∧
+    decode bs44 [] [56, 61, 70, 73, 88, 46, 52, 46, 52, 1, 57, 61] = .none 0 ∧
+    decode bs44 [] [56, 61, 70, 73, 88, 46, 52, 46, 52, 1, 57, 61, 49, 48, 48, 1, 51, 53, 61, 48, 1] = .none 0 :=
+  ⟨DecRes.of_noneOf (by decide +kernel), DecRes.of_noneOf (by decide +kernel), DecRes.of_noneOf (by decide +kernel)⟩
+
+/-- hypotheses of `closed_frame_wait_bounded`: head declaring 100 bytes, closed by a CheckSum field -/
+example : findSub marker ([0, 0] ++ [56, 61, 70, 73, 88, 46, 52, 46, 52, 1, 57, 61, 49, 48, 48, 1, 51, 53, 61, 48, 1, 49, 48, 61, 48, 1]) = some 2 ∧
+    closedAtOf (([0, 0] ++ [56, 61, 70, 73, 88, 46, 52, 46, 52, 1, 57, 61, 49, 48, 48, 1, 51, 53, 61, 48, 1, 49, 48, 61, 48, 1]).drop 2) = some 26 := by
+  decide +kernel
 
 end AsyncFix.Props.C10
